@@ -35,6 +35,13 @@ def show_v(v):
 
 
 def rule_trust(ctx):
+    """the history below is played twice: on the identity key store itself and through the store facade the library is
+    handed (LiteAxolotlStore, built by its own constructor) - a cache or filter in front of the table is part of the answer"""
+    _trust_history(ctx, facade=False)
+    _trust_history(ctx, facade=True)
+
+
+def _trust_history(ctx, facade):
     """trust-on-first-use, by abstract execution of the identity store on an opaque database connection.  A history
     is played on one store object: saveIdentity(R1, K1) - the INSERT's bound values are captured - then
     isTrustedIdentity is asked with the database answering from that row:
@@ -54,6 +61,13 @@ def rule_trust(ctx):
     if fn is None or sv is None:
         ctx.undecided("C17.trust", w, "identity store", "isTrustedIdentity / saveIdentity vanished")
         return
+    fac = repo.cls(c13.FACADE[0], c13.FACADE[1])
+    if facade:
+        if repo.find_method(fac, "isTrustedIdentity")[1] is None or repo.find_method(fac, "saveIdentity")[1] is None:
+            ctx.undecided("C17.trust", where(c13.FACADE[0], c13.FACADE[1], None), "store facade", "isTrustedIdentity / saveIdentity vanished from the facade")
+            return
+        w = where(c13.FACADE[0], c13.FACADE[1] + ".isTrustedIdentity", getattr(repo.find_method(fac, "isTrustedIdentity")[1], "lineno", None))
+        ws = where(c13.FACADE[0], c13.FACADE[1] + ".saveIdentity", getattr(repo.find_method(fac, "saveIdentity")[1], "lineno", None))
 
     def label(v):
         return v[1] if isinstance(v, tuple) and v[0] == "ext" else None
@@ -81,7 +95,10 @@ def rule_trust(ctx):
                  "ext:*.fetchone": fetchone, "anymethod:fetchone": fetchone, "ext:*.fetchall": fetchall, "anymethod:fetchall": fetchall}
         it = Interp(repo, cell, domains, hooks=hooks)
         db = ("ext", "db", [])
-        store = it.construct(cls, [db], {}, {"@module": cls.module, "@owner": None}, 0, None)
+        if facade:
+            store = it.construct(fac, [("c", "/store/axolotl.db")], {}, {"@module": fac.module, "@owner": None}, 0, None)
+        else:
+            store = it.construct(cls, [db], {}, {"@module": cls.module, "@owner": None}, 0, None)
         R1, R2, K1, K2 = ("ext", "R1", []), ("ext", "R2", []), ("ext", "K1", []), ("ext", "K2", [])
         out = {"insert": None, "asks": []}
 
@@ -94,7 +111,7 @@ def rule_trust(ctx):
             return ex
         n0 = len(it.effects)
         try:
-            it.call_function(sv, cls, store, [R1, K1], {}, depth=0)
+            it.method_call(store, "saveIdentity", [R1, K1], {}, {"@module": cls.module, "@owner": None}, 0, None)
         except _Raise as r:
             out["insert"] = ("raise", r.text)
             return out, it
@@ -136,7 +153,7 @@ def rule_trust(ctx):
                 return None
             it.hooks.update({"ext:*.fetchone": fo, "anymethod:fetchone": fo, "ext:*.fetchall": fa, "anymethod:fetchall": fa, "iterate": rows_of})
             try:
-                res["ret"] = it.call_function(fn, cls, store, [who, key], {}, depth=0)
+                res["ret"] = it.method_call(store, "isTrustedIdentity", [who, key], {}, {"@module": cls.module, "@owner": None}, 0, None)
             except _Raise as r:
                 res["raised"] = r.text
             if res["select"] is None:
@@ -164,7 +181,8 @@ def rule_trust(ctx):
             case = "(%s, %s)%s" % (a["who"], a["key"], "" if a["row"] else " unknown recipient")
             sel = a["select"]
             if sel is None or sel[0] != table or sel[3] != [a["who"]] or len(sel[2]) != 1 or vals.get(sel[2][0]) != "R1":
-                bad.setdefault(case, []).append("the lookup is not a SELECT on %s keyed by the recipient asked about (%s)" % (table, sel))
+                bad.setdefault(case, []).append("the lookup is not a SELECT on %s keyed by the recipient asked about (%s)" % (table, sel) if sel is not None else
+                                                "answers %s without asking the pin table about this recipient (an earlier answer is remembered: a changed key of a contact seen before is accepted)" % (show_v(a["ret"]) if a["ret"] is not None else "nothing"))
                 continue
             if a["raised"]:
                 bad.setdefault(case, []).append("raises %s" % a["raised"][:50])
@@ -178,7 +196,7 @@ def rule_trust(ctx):
                 bad.setdefault(case, []).append("%s: returns %s" % (why, show_v(r) if r is not None else None))
     ctx.check("C17.trust", not bad_store, ws, "saveIdentity pins (recipient, serialised key)", "; ".join(sorted(set(bad_store))[:2]), "one INSERT binding the recipient and a serialisation of the key")
     for case in ("(R1, K1)", "(R1, K2)", "(R2, K1) unknown recipient"):
-        what = {"(R1, K1)": "the pinned key is trusted", "(R1, K2)": "another key for a pinned recipient is refused", "(R2, K1) unknown recipient": "an unknown recipient is trusted (first use)"}[case]
+        what = {"(R1, K1)": "the pinned key is trusted", "(R1, K2)": "another key for a pinned recipient is refused", "(R2, K1) unknown recipient": "an unknown recipient is trusted (first use)"}[case] + (" (asked through the store facade)" if facade else "")
         if bad_store:
             continue
         ctx.check("C17.trust", case not in bad, w, what, "; ".join(sorted(set(bad.get(case, [])))[:2]), "decided by the stored key of that recipient (%d path class(es))" % len(cells))
